@@ -8,6 +8,7 @@ package main
 //
 // <type> = base min max   (min / max: decimal or _ )
 // <expr> = c <int> | v <name> <type> | u <op> e | b <op> l r | as <type> e | a <op> <n> e*n
+//          (b min / max / lowbits / highbits l r: the numeric built-in methods of l)
 //        | ix <array> <len> <elem-type> e     (element of a local / this.field array of scalars)
 //
 // Expressions / facts outside the scalar fragment are not serialised (a fact
@@ -38,6 +39,8 @@ var assocOpNames = map[t.ID]string{
 	t.IDXAssociativePlus: "plus", t.IDXAssociativeStar: "star", t.IDXAssociativeAmp: "amp",
 	t.IDXAssociativePipe: "pipe", t.IDXAssociativeHat: "hat", t.IDXAssociativeAnd: "and", t.IDXAssociativeOr: "or",
 }
+
+var builtinOpNames = map[t.ID]string{t.IDMin: "min", t.IDMax: "max", t.IDLowBits: "lowbits", t.IDHighBits: "highbits"}
 
 var unOpNames = map[t.ID]string{t.IDXUnaryPlus: "pos", t.IDXUnaryMinus: "neg", t.IDXUnaryNot: "not"}
 
@@ -135,6 +138,30 @@ func exprSexpr(tm *t.Map, n *a.Expr, nodes *[]*a.Expr) (string, bool) {
 			return "", false
 		}
 		return "ix " + name + " " + cv.String() + " " + ets + " " + e, true
+	case op == t.IDOpenParen:
+		// the numeric built-ins `x.min(no_more_than: y)`, `x.max(no_less_than: y)`,
+		// `x.low_bits(n: k)`, `x.high_bits(n: k)`: binary operators of the model
+		// (receiver, argument); the `x.min` selector node is not a node of the model
+		recv, meth, args, ok := n.IsMethodCall()
+		if !ok || len(args) != 1 || recv.MType() == nil || !recv.MType().IsNumType() {
+			return "", false
+		}
+		nm, ok := builtinOpNames[meth]
+		if !ok {
+			return "", false
+		}
+		if recv.ConstValue() != nil {
+			return "", false // typed constant receiver: the type of the constant matters
+		}
+		l, ok := exprSexpr(tm, recv, nodes)
+		if !ok {
+			return "", false
+		}
+		r, ok := exprSexpr(tm, args[0].AsArg().Value(), nodes)
+		if !ok {
+			return "", false
+		}
+		return "b " + nm + " " + l + " " + r, true
 	case op.IsXUnaryOp():
 		e, ok := exprSexpr(tm, n.RHS().AsExpr(), nodes)
 		if !ok {
